@@ -243,58 +243,49 @@ def assume_fact(t):
     _P.model = None
 
 
-_UF = {}
-
-
-def _uf(name):
-    if name not in _UF:
-        _UF[name] = z3.Function("uf_" + name, z3.RealSort(), z3.RealSort())
-    return _UF[name]
-
-
-def uf_app(name, arg):
+def uf_app(name, arg, positive=False, monotone=False):
+    """Application of an uninterpreted real function (exp, log, tanh, or a harness-defined
+    name) -- Ackermannised: one fresh Real per syntactically distinct argument, with the true
+    facts about the function (positivity, monotonicity, inverse pairs, congruence) added to the
+    path condition.  Queries therefore stay in pure (non-linear) real arithmetic."""
     p = _P
-    f = _uf(name)
     arg = z3.simplify(arg)
-    if p is not None:
-        lst = p.uf_apps.setdefault(name, [])
-        if not any(a.eq(arg) for a in lst):
-            lst.append(arg)
-    return f(arg)
+    lst = p.uf_apps.setdefault(name, [])
+    for a, v in lst:
+        if a.eq(arg):
+            return v
+    p.fresh += 1
+    v = z3.Real("%s!%d" % (name, p.fresh))
+    zero, one = z3.RealVal(0), z3.RealVal(1)
+    ax = []
+    for a, w in lst:                       # congruence (+ monotonicity for the known functions)
+        ax.append(z3.Implies(a == arg, w == v))
+        if name in ("exp", "log", "tanh") or monotone:
+            ax += [z3.Implies(a < arg, w < v), z3.Implies(arg < a, v < w)]
+    if name == "exp":
+        ax += [v > 0, v >= 1 + arg, z3.Implies(arg > 0, v > 1), z3.Implies(arg < 0, v < 1),
+               z3.Implies(arg == 0, v == 1)]
+        for y, l in p.uf_apps.get("log", []):
+            ax += [z3.Implies(y == v, l == arg), z3.Implies(l == arg, y == v)]
+    elif name == "log":
+        ax += [v <= arg - 1, z3.Implies(arg > 1, v > 0), z3.Implies(arg < 1, v < 0),
+               z3.Implies(arg == 1, v == 0)]
+        for x, e in p.uf_apps.get("exp", []):
+            ax += [z3.Implies(arg == e, v == x), z3.Implies(v == x, arg == e)]
+    elif name == "tanh":
+        ax += [v > -1, v < 1, z3.Implies(arg > 0, v > 0), z3.Implies(arg < 0, v < 0),
+               z3.Implies(arg == 0, v == 0)]
+    elif positive:
+        ax += [v > 0]
+    lst.append((arg, v))
+    if ax:
+        p.add(z3.And(*ax))
+        p.model = None
+    return v
 
 
 def _uf_axioms(p):
-    """True facts about exp / log / tanh instantiated at the terms that occurred on the path."""
-    ax = []
-    E, L, T = _uf("exp"), _uf("log"), _uf("tanh")
-    ex = list(p.uf_apps.get("exp", []))
-    lg = list(p.uf_apps.get("log", []))
-    th = list(p.uf_apps.get("tanh", []))
-    zero, one = z3.RealVal(0), z3.RealVal(1)
-    if ex or lg:
-        ax += [E(zero) == one, L(one) == zero]
-    for x in ex:
-        ax += [E(x) > 0, E(x) >= 1 + x, L(E(x)) == x, z3.Implies(x > 0, E(x) > 1),
-               z3.Implies(x < 0, E(x) < 1), z3.Implies(x == 0, E(x) == 1),
-               E(-x) * E(x) == 1]
-    for y in lg:
-        ax += [z3.Implies(y > 0, E(L(y)) == y), z3.Implies(y > 0, L(y) <= y - 1),
-               z3.Implies(y > 1, L(y) > 0), z3.Implies(z3.And(y > 0, y < 1), L(y) < 0),
-               z3.Implies(y == 1, L(y) == 0)]
-    for i, x in enumerate(ex):
-        for y in ex[i + 1:]:
-            ax += [z3.Implies(x < y, E(x) < E(y)), z3.Implies(y < x, E(y) < E(x))]
-    for i, x in enumerate(lg):
-        for y in lg[i + 1:]:
-            ax += [z3.Implies(z3.And(0 < x, x < y), L(x) < L(y)),
-                   z3.Implies(z3.And(0 < y, y < x), L(y) < L(x))]
-    for x in th:
-        ax += [T(x) > -1, T(x) < 1, z3.Implies(x > 0, T(x) > 0), z3.Implies(x < 0, T(x) < 0),
-               z3.Implies(x == 0, T(x) == 0)]
-    for i, x in enumerate(th):
-        for y in th[i + 1:]:
-            ax += [z3.Implies(x < y, T(x) < T(y)), z3.Implies(y < x, T(y) < T(x))]
-    return ax
+    return []
 
 
 # ----------------------------------------------------------------------------------------------
@@ -415,7 +406,7 @@ class Ctx:
             self.obligations.append((name, "unknown", "skipped after an earlier unknown on this path"))
             return True
         # cheap falsification: the model that steered this path may already violate t
-        if p.model is not None and not p.uf_apps:
+        if p.model is not None:
             v = p.model.eval(t, model_completion=True)
             if z3.is_false(v):
                 self.obligations.append((name, "sat", self._model_values(p.model, detail)))
@@ -426,7 +417,20 @@ class Ctx:
             ax = _uf_axioms(p)
             if ax:
                 p.s.add(*ax)
-            r = p.check()
+            full = int(p.opts.get("query_timeout_ms", 10000))
+            fast = int(p.opts.get("fast_timeout_ms", 1500))
+            r = z3.unknown
+            if fast < full:
+                p.s.set("timeout", fast)
+                r = p.check()
+                p.s.set("timeout", full)
+            if r == z3.unknown:
+                if fast < full:
+                    m = _falsify_by_sampling(p, self)
+                    if m is not None:
+                        self.obligations.append((name, "sat", self._model_values(m, detail)))
+                        return False
+                r = p.check()
             if r == z3.sat:
                 m = p.s.model()
                 self.obligations.append((name, "sat", self._model_values(m, detail)))
@@ -435,7 +439,7 @@ class Ctx:
                 self.obligations.append((name, "unsat", None))
                 return True
             reason = str(p.s.reason_unknown())
-            m = _falsify_by_sampling(p, self)
+            m = _falsify_by_sampling(p, self) if fast >= full else None
             if m is not None:
                 self.obligations.append((name, "sat", self._model_values(m, detail)))
                 return False
@@ -503,6 +507,14 @@ def _falsify_by_sampling(p, ctx, tries=24):
     import random
     rnd = random.Random(12345 + len(p.decisions))
     ints = [-3, -2, -1, 0, 1, 2, 3, 5, 7, 10, 100]
+    p.s.set("timeout", 1000)
+    try:
+        return _sample_loop(p, rnd, ints, tries)
+    finally:
+        p.s.set("timeout", int(p.opts.get("query_timeout_ms", 10000)))
+
+
+def _sample_loop(p, rnd, ints, tries):
     for k in range(tries):
         p.s.push()
         try:
@@ -672,11 +684,70 @@ def _short(x, n=200):
 _POOL = None
 
 
+def _worker_main(conn):
+    import signal
+    signal.signal(signal.SIGINT, signal.SIG_IGN)
+    while True:
+        try:
+            item = conn.recv()
+        except EOFError:
+            return
+        if item is None:
+            return
+        try:
+            conn.send(("ok", _explore(item)))
+        except BaseException as e:     # noqa
+            try:
+                conn.send(("err", "%s: %s\n%s" % (type(e).__name__, e, traceback.format_exc(limit=-4))))
+            except Exception:          # noqa
+                return
+
+
+class _Worker:
+    def __init__(self):
+        ctxm = mp.get_context("fork")
+        self.conn, child = ctxm.Pipe()
+        self.proc = ctxm.Process(target=_worker_main, args=(child,), daemon=True)
+        self.proc.start()
+        child.close()
+        self.item = None
+        self.t0 = 0.0
+
+    def kill(self):
+        try:
+            self.proc.kill()
+            self.proc.join(2)
+        except Exception:      # noqa
+            pass
+        try:
+            self.conn.close()
+        except Exception:      # noqa
+            pass
+
+
+class _Pool:
+    def __init__(self, n):
+        self._processes = n
+        self.workers = [_Worker() for _ in range(n)]
+
+    def terminate(self):
+        for w in self.workers:
+            try:
+                if w.item is None:
+                    w.conn.send(None)
+            except Exception:  # noqa
+                pass
+            w.kill()
+
+    def join(self):
+        pass
+
+
 def pool(nproc=None):
     global _POOL
     if _POOL is None:
         n = nproc or int(os.environ.get("VERIF_JOBS", "0")) or min(16, os.cpu_count() or 1)
-        _POOL = mp.get_context("fork").Pool(n)
+        _POOL = _Pool(n)
     return _POOL
 
 
@@ -684,7 +755,6 @@ def close_pool():
     global _POOL
     if _POOL is not None:
         _POOL.terminate()
-        _POOL.join()
         _POOL = None
 
 
@@ -700,11 +770,11 @@ def explore(hnames, tier="quick", opts=None, time_budget=None, serial=False):
         agg[hn] = {"cases": len(cases), "paths": 0, "done": 0, "infeasible": 0, "aborted": 0,
                    "exception": 0, "queries": 0, "solver_s": 0.0, "obl": {}, "candidates": [],
                    "unknown": [], "unknown_branches": 0, "samples": [], "aborted_msgs": [],
-                   "reach_by_case": {}, "max_depth": 0, "incomplete": 0, "notes": []}
+                   "reach_by_case": {}, "max_depth": 0, "incomplete": 0, "notes": [],
+                   "hung": 0}
         for i, c in enumerate(cases):
             work.append((hn, i, c, [], opts, tier))
     t0 = time.perf_counter()
-    pending = []
     if serial:
         queue = list(work)
         while queue:
@@ -719,38 +789,71 @@ def explore(hnames, tier="quick", opts=None, time_budget=None, serial=False):
                 break
         return agg
     pl = pool()
-    inflight = []
-    queue = list(work)
-
     nproc = pl._processes
+    queue = list(work)
+    qto = opts.get("query_timeout_ms", 10000) / 1000.0
+    hard = opts.get("hang_seconds", max(60.0, 4 * qto + opts.get("chunk_seconds", 20.0) + 20))
 
-    def submit(item):
-        if len(queue) + len(inflight) < 3 * nproc:
-            o = dict(item[4])
-            o["chunk_paths"] = min(o.get("chunk_paths", 64), 6)
-            o["chunk_seconds"] = min(o.get("chunk_seconds", 20.0), 3.0)
-            item = item[:4] + (o,) + item[5:]
-        inflight.append((item, pl.apply_async(_explore, (item,))))
-    while queue or inflight:
+    def busy():
+        return [w for w in pl.workers if w.item is not None]
+
+    while queue or busy():
         over = time_budget and time.perf_counter() - t0 > time_budget
         if over and queue:
             for it in queue:
                 agg[it[0]]["incomplete"] += 1
             queue = []
-        while queue and len(inflight) < 64:
-            submit(queue.pop())
-        still = []
         progressed = False
-        for item, ar in inflight:
-            if ar.ready():
+        for wi, w in enumerate(pl.workers):
+            if w.item is None:
+                if queue:
+                    item = queue.pop()
+                    if len(queue) + len(busy()) < 3 * nproc:
+                        o = dict(item[4])
+                        o["chunk_paths"] = min(o.get("chunk_paths", 64), 6)
+                        o["chunk_seconds"] = min(o.get("chunk_seconds", 20.0), 3.0)
+                        item = item[:4] + (o,) + item[5:]
+                    try:
+                        w.conn.send(item)
+                    except Exception:       # noqa  (worker died while idle)
+                        w.kill()
+                        pl.workers[wi] = _Worker()
+                        queue.append(item)
+                        continue
+                    w.item = item
+                    w.t0 = time.perf_counter()
+                    progressed = True
+                continue
+            got = None
+            try:
+                if w.conn.poll(0):
+                    got = w.conn.recv()
+            except (EOFError, OSError):
+                got = ("err", "worker died")
+            if got is not None:
                 progressed = True
-                key, res = ar.get()
-                _merge(agg, key, res)
-                for pre in res["leftover"]:
-                    queue.insert(0, (item[0], item[1], item[2], pre, opts, tier))
-            else:
-                still.append((item, ar))
-        inflight = still
+                item = w.item
+                w.item = None
+                if got[0] == "ok":
+                    key, res = got[1]
+                    _merge(agg, key, res)
+                    for pre in res["leftover"]:
+                        queue.insert(0, (item[0], item[1], item[2], pre, opts, tier))
+                else:
+                    agg[item[0]]["hung"] += 1
+                    agg[item[0]]["aborted_msgs"].append("worker failed: " + str(got[1])[:300])
+                    if not w.proc.is_alive():
+                        w.kill()
+                        pl.workers[wi] = _Worker()
+            elif time.perf_counter() - w.t0 > hard or not w.proc.is_alive():
+                item = w.item
+                agg[item[0]]["hung"] += 1
+                agg[item[0]]["aborted_msgs"].append(
+                    "solver did not return within %.0fs (worker killed); case %s prefix length %d"
+                    % (hard, _short(item[2], 80), len(item[3])))
+                w.kill()
+                pl.workers[wi] = _Worker()
+                progressed = True
         if not progressed:
             time.sleep(0.005)
     return agg
